@@ -80,5 +80,5 @@ VARIABLE x
 Init == x = 0
 Next == UNCHANGED x
 Spec == Init /\ [][Next]_x
-Write == JsonSerialize(IOEnv.RESULT_FILE, [time |-> SetToSeq(TimeTable), filters |-> SetToSeq(FilterTable)])
+Write == TLCGet("distinct") >= 0 /\ JsonSerialize(IOEnv.RESULT_FILE, [time |-> SetToSeq(TimeTable), filters |-> SetToSeq(FilterTable)])
 =============================================================================
